@@ -143,6 +143,13 @@ INVALID = (
     ("n_cpu-float", dict(n_cpu=1.5)),
     ("output_type-unknown", dict(output_type="dense")),
     ("output_type-none", dict(output_type=None)),
+    ("output_type-wrong-case", dict(output_type="Triplets")),
+    ("output_type-upper-case", dict(output_type="COO_MATRIX")),
+    ("output_type-fragment", dict(output_type="matrix")),
+    ("output_type-fragment2", dict(output_type="array")),
+    ("output_type-empty", dict(output_type="")),
+    ("output_type-padded", dict(output_type=" ndarray")),
+    ("output_type-list", dict(output_type=["triplets"])),
     ("max_returns-0", dict(max_returns=0)),
     ("max_custom_distance-neg", dict(max_custom_distance=-1.0, custom_distance="lev")),
 )
